@@ -218,6 +218,7 @@ let handle_op (h : hist) (line : string) =
     let gl = List.map (fun (s, a, ans) -> { g_size = s; g_align = a; g_ans = ans }) o.reqs in
     let answers = List.map (fun (_, _, ans) -> ans) o.reqs in
     let b0 = h.b in
+    let synced_at_start = not !desynced in
     let (b1, out) = step k (follow k gl) b0 mi.mop in
     let (_, outp) = step k (policy k answers) b0 mi.mop in
     (* ----- result class of the implementation ----- *)
@@ -332,7 +333,11 @@ let handle_op (h : hist) (line : string) =
        | g :: _, [g'] when g = g' -> ()
        | _ -> report_spec ~prop:"C03" ~pred:"reset_keeps_newest" ~detail:(show_list show_g h.held));
       if not (sp_reset_ok k held_before h.held o.ichunks o.icap) then
-        report_spec ~prop:"C06" ~pred:"sp_reset_ok" ~detail:(show_list show_pair o.ichunks ^ " cap=" ^ string_of_n o.icap)
+        report_spec ~prop:"C06" ~pred:"sp_reset_ok" ~detail:(show_list show_pair o.ichunks ^ " cap=" ^ string_of_n o.icap);
+      (* reset keeps the allocation limit *)
+      if synced_at_start && o.ilimit <> b0.limit then
+        report_spec ~prop:"C06" ~pred:"reset_keeps_limit"
+          ~detail:(Printf.sprintf "before=%s after=%s" (match b0.limit with Some l -> string_of_n l | None -> "-") (match o.ilimit with Some l -> string_of_n l | None -> "-"))
     end;
     (* C08: accounting *)
     if kind <> "drop" && not (sp_accounting k h.held o.iab o.iabim) then
